@@ -28,6 +28,7 @@ import (
 	"os/exec"
 	"path/filepath"
 	"reflect"
+	"runtime"
 	"sort"
 	"strings"
 	"time"
@@ -260,6 +261,7 @@ func (t timedOracle) Ask(line string, n int) []string {
 }
 
 type checker struct {
+	note    string
 	c       *hx.Ctx
 	or      timedOracle
 	backend string
@@ -268,7 +270,7 @@ type checker struct {
 }
 
 func (k *checker) fail(acc string, blk uint64, idx int, detail string) {
-	k.fails = append(k.fails, failure{acc, blk, idx, detail})
+	k.fails = append(k.fails, failure{acc, blk, idx, detail + k.note})
 }
 func (k *checker) eq(acc string, blk uint64, idx int, want, got string, err error) {
 	k.nChecks++
@@ -491,55 +493,102 @@ func (k *checker) run(cs *chainCase, d db.KeyValueStore, useBatch bool, tb *layo
 		} else {
 			k.eq("core.GetBlockHeaderHashAndStateRootByNumber", n, -1, dump(hash)+dump(b.Header.GlobalStateRoot), dump(ph)+dump(pr), err)
 		}
-		// ---- whole lists ----
-		txs, err := core.GetTransactionsByBlockNumber(d, n)
-		k.eq("core.GetTransactionsByBlockNumber", n, -1, e.allTx, dumpTxs(txs), err)
-		var iterTxs []core.Transaction
-		var iterErr error
-		for t, err := range core.GetTransactionsByBlockNumberIter(d, n) {
-			if err != nil {
-				iterErr = err
-				break
-			}
-			iterTxs = append(iterTxs, t)
-		}
-		k.eq("core.GetTransactionsByBlockNumberIter", n, -1, e.allTx, dumpTxs(iterTxs), iterErr)
-		rcs, err := core.GetReceiptsByBlockNumber(d, n)
-		k.eq("core.GetReceiptsByBlockNumber", n, -1, e.allRc, dumpRcs(rcs), err)
-		t2, r2, err := core.GetTransactionsAndReceiptsByBlockNumber(d, n)
-		k.eq("core.GetTransactionsAndReceiptsByBlockNumber", n, -1, e.allTx+e.allRc, dumpTxs(t2)+dumpRcs(r2), err)
-		evs, err := core.GetTransactionEventsByBlockNumber(d, n)
-		evd := make([]string, len(evs))
-		for i := range evs {
-			evd[i] = dump(evs[i])
-		}
-		k.eq("core.GetTransactionEventsByBlockNumber", n, -1, e.events, fmt.Sprintf("%d[%s]", len(evs), strings.Join(evd, " | ")), err)
-		hs, err := core.GetTransactionHashesByBlockNumber(d, n)
-		k.eq("core.GetTransactionHashesByBlockNumber", n, -1, e.hashes, dump(hs), err)
-		blk, err := core.GetBlockByNumber(d, n)
-		if err == nil {
-			k.eq("core.GetBlockByNumber", n, -1, e.block, "H:"+dump(blk.Header)+" T:"+dumpTxs(blk.Transactions)+" R:"+dumpRcs(blk.Receipts), nil)
-		} else {
-			k.eq("core.GetBlockByNumber", n, -1, "", "", err)
-		}
-		bt, err := core.BlockTransactionsBucket.Get(d, n)
-		if err != nil {
-			k.eq("core.BlockTransactionsBucket.Get", n, -1, "", "", err)
-		} else {
-			ta, err := bt.Transactions().All()
-			k.eq("BlockTransactions.Transactions.All", n, -1, e.allTx, dumpTxs(ta), err)
-			ra, err := bt.Receipts().All()
-			k.eq("BlockTransactions.Receipts.All", n, -1, e.allRc, dumpRcs(ra), err)
-		}
-		// ---- per index, including out of range ----
-		probes := []uint64{}
+		// ---- whole lists (bulk decoders), under the default GOMAXPROCS and, for larger blocks, under 3 ----
 		m := len(b.Txs)
 		if len(b.Rcs) > m {
 			m = len(b.Rcs)
 		}
-		for i := 0; i < m; i++ {
+		var bt core.BlockTransactions
+		bulk := func() {
+			txs, err := core.GetTransactionsByBlockNumber(d, n)
+			k.eq("core.GetTransactionsByBlockNumber", n, -1, e.allTx, dumpTxs(txs), err)
+			var iterTxs []core.Transaction
+			var iterErr error
+			for t, err := range core.GetTransactionsByBlockNumberIter(d, n) {
+				if err != nil {
+					iterErr = err
+					break
+				}
+				iterTxs = append(iterTxs, t)
+			}
+			k.eq("core.GetTransactionsByBlockNumberIter", n, -1, e.allTx, dumpTxs(iterTxs), iterErr)
+			rcs, err := core.GetReceiptsByBlockNumber(d, n)
+			k.eq("core.GetReceiptsByBlockNumber", n, -1, e.allRc, dumpRcs(rcs), err)
+			t2, r2, err := core.GetTransactionsAndReceiptsByBlockNumber(d, n)
+			k.eq("core.GetTransactionsAndReceiptsByBlockNumber", n, -1, e.allTx+e.allRc, dumpTxs(t2)+dumpRcs(r2), err)
+			evs, err := core.GetTransactionEventsByBlockNumber(d, n)
+			evd := make([]string, len(evs))
+			for i := range evs {
+				evd[i] = dump(evs[i])
+			}
+			k.eq("core.GetTransactionEventsByBlockNumber", n, -1, e.events, fmt.Sprintf("%d[%s]", len(evs), strings.Join(evd, " | ")), err)
+			hs, err := core.GetTransactionHashesByBlockNumber(d, n)
+			k.eq("core.GetTransactionHashesByBlockNumber", n, -1, e.hashes, dump(hs), err)
+			blk, err := core.GetBlockByNumber(d, n)
+			if err == nil {
+				k.eq("core.GetBlockByNumber", n, -1, e.block, "H:"+dump(blk.Header)+" T:"+dumpTxs(blk.Transactions)+" R:"+dumpRcs(blk.Receipts), nil)
+			} else {
+				k.eq("core.GetBlockByNumber", n, -1, "", "", err)
+			}
+			bt, err = core.BlockTransactionsBucket.Get(d, n)
+			if err != nil {
+				k.eq("core.BlockTransactionsBucket.Get", n, -1, "", "", err)
+			} else {
+				ta, err := bt.Transactions().All()
+				k.eq("BlockTransactions.Transactions.All", n, -1, e.allTx, dumpTxs(ta), err)
+				ra, err := bt.Receipts().All()
+				k.eq("BlockTransactions.Receipts.All", n, -1, e.allRc, dumpRcs(ra), err)
+				// bulk against by-index, element by element
+				for i := range ta {
+					one, err := bt.Transactions().Get(i)
+					k.nChecks++
+					if err != nil || dumpTx(one) != dumpTx(ta[i]) {
+						k.fail("bulk-vs-index:transactions", n, i, fmt.Sprintf("All()[%d] of %d = %.80s, Get(%d) = %.80s (err %v)", i, len(ta), dumpTx(ta[i]), i, dumpTx(one), err))
+						break
+					}
+				}
+				for i := range ra {
+					one, err := bt.Receipts().Get(i)
+					k.nChecks++
+					if err != nil || dump(one) != dump(ra[i]) {
+						k.fail("bulk-vs-index:receipts", n, i, fmt.Sprintf("All()[%d] of %d = %.80s, Get(%d) = %.80s (err %v)", i, len(ra), dump(ra[i]), i, dump(one), err))
+						break
+					}
+				}
+			}
+		}
+		bulk()
+		if m >= 200 {
+			old := runtime.GOMAXPROCS(3)
+			k.note = " [GOMAXPROCS=3]"
+			bulk()
+			runtime.GOMAXPROCS(old)
+			k.note = ""
+		}
+		// ---- per index, including out of range ----
+		// blocks of more than 300 items: every database-level by-index accessor re-reads the whole
+		// entry, so those run on a boundary-heavy sample (the in-memory element-wise comparison above
+		// covers every index)
+		idxs := []int{}
+		if m <= 300 {
+			for i := 0; i < m; i++ {
+				idxs = append(idxs, i)
+			}
+		} else {
+			seen := map[int]bool{}
+			for _, i := range []int{0, 1, 2, 254, 255, 256, 257, 510, 511, 512, 513, 1022, 1023, 1024, 1025, 4094, 4095, 4096, 4097, m / 3, m / 2, m - 3, m - 2, m - 1} {
+				if i >= 0 && i < m && !seen[i] {
+					seen[i] = true
+					idxs = append(idxs, i)
+				}
+			}
+			sort.Ints(idxs)
+		}
+		probes := []uint64{}
+		for _, i := range idxs {
 			probes = append(probes, uint64(i))
 		}
+		nIn := len(probes)
 		probes = append(probes, uint64(m), uint64(m)+1, 1<<31, 1<<32, 1<<63-1, 1<<63, 1<<64-1)
 		for _, u := range probes {
 			i := int(u)
@@ -588,7 +637,11 @@ func (k *checker) run(cs *chainCase, d db.KeyValueStore, useBatch bool, tb *layo
 			}
 		}
 		// ---- by transaction hash ----
-		for i, t := range b.Txs {
+		for _, i := range idxs {
+			if i >= len(b.Txs) {
+				continue
+			}
+			t := b.Txs[i]
 			th := t.Hash()
 			tx, err := core.GetTransactionByHash(d, (*felt.TransactionHash)(th))
 			k.eq("core.GetTransactionByHash", n, i, e.txs[i], dumpTx(tx), err)
@@ -684,10 +737,14 @@ func (k *checker) run(cs *chainCase, d db.KeyValueStore, useBatch bool, tb *layo
 			mp := probes
 			if m > 24 { // the model re-walks the whole blob per read: first, last and a spread of indices
 				mp = []uint64{0, 1, 2, uint64(m) / 2, uint64(m) - 3, uint64(m) - 2, uint64(m) - 1}
-				for j := 1; j < 12; j++ {
-					mp = append(mp, uint64(j*m/12))
+				if m < 400 {
+					for j := 1; j < 12; j++ {
+						mp = append(mp, uint64(j*m/12))
+					}
+				} else {
+					mp = []uint64{0, uint64(m) / 2, uint64(m) - 1}
 				}
-				mp = append(mp, probes[m:]...)
+				mp = append(mp, probes[nIn:nIn+3]...)
 			}
 			k.modelReads(b, e, raw, bt, mp)
 		}
@@ -1018,7 +1075,6 @@ func keyOrder(k *checker, r *hx.RNG) {
 		}
 	}
 }
-
 
 // utf8Probe: a Go string is a storable value whatever its bytes. The encoder writes a string with
 // invalid UTF-8 as a CBOR text string without complaint, the decoder (default UTF8RejectInvalid) then
